@@ -186,7 +186,9 @@ func genDims(t *rapid.T, a []any, invalid *bool, label string) selref.Step {
 		}
 		if rapid.IntRange(0, 6).Draw(t, label+".badrange") == 0 {
 			*invalid = true
-			if rapid.Bool().Draw(t, label+".badkind") || d.From <= 0 {
+			if rapid.IntRange(0, 3).Draw(t, label+".hugeend") == 0 {
+				d.Lit = rapid.SampledFrom([]string{"4294967296", "9223372036854775808", "18446744073709551615", "100000000000000000000"}).Draw(t, label+".endlit")
+			} else if rapid.Bool().Draw(t, label+".badkind") || d.From <= 0 {
 				d.To = n + rapid.IntRange(1, 2).Draw(t, label+".over")
 			} else {
 				d.To = d.From - 1 // begin > end
@@ -220,7 +222,12 @@ func genDims(t *rapid.T, a []any, invalid *bool, label string) selref.Step {
 			cur = arr[0]
 		} else if rapid.IntRange(0, 7).Draw(t, l+".oob") == 0 {
 			*invalid = true
-			st.Dims = append(st.Dims, selref.Dim{K: "i", I: len(arr) + rapid.IntRange(0, 2).Draw(t, l+".by")})
+			d := selref.Dim{K: "i", I: len(arr) + rapid.IntRange(0, 2).Draw(t, l+".by")}
+			if rapid.IntRange(0, 2).Draw(t, l+".huge") == 0 {
+				// far outside: literals around the limits of the machine integers
+				d.Lit = rapid.SampledFrom([]string{"2147483648", "4294967296", "9223372036854775807", "9223372036854775808", "18446744073709551615", "18446744073709551616", "100000000000000000000"}).Draw(t, l+".lit")
+			}
+			st.Dims = append(st.Dims, d)
 			break
 		} else {
 			idx := rapid.IntRange(0, len(arr)-1).Draw(t, l+".i")
@@ -388,7 +395,7 @@ func genSelector(t *rapid.T, doc map[string]any) (*selref.Selector, bool) {
 }
 
 var selAlphabet = []string{"a", "b", "id", "x y", ".", "..", "[", "]", "[0]", "[9]", "[each]", "[each:0]", "each", "keep=>", "=>", "::", ":", "(", ")", "(0:9)", "(begin:end)", "(2:1)",
-	"{", "}", "|", "|string", "|number", "{a|number}", "'", "'k.z'", "<-", "*", "mix", "mix=>", "distinct=>", "nofn=>", " ", "-1", "99999999999999999999", "0", ",", "\x00", "é", "[[", "]]", "{}", "[]", "[:]", "[(:)]", "[keep=>]"}
+	"{", "}", "|", "|string", "|number", "{a|number}", "'", "'k.z'", "<-", "*", "mix", "mix=>", "distinct=>", "nofn=>", " ", "-1", "99999999999999999999", "[9223372036854775808]", "[18446744073709551615]", "(1:18446744073709551615)", "(9223372036854775808:end)", "[each:9223372036854775808]", "[4294967296]", "[+1]", "(+0:1)", "0", ",", "\x00", "é", "[[", "]]", "{}", "[]", "[:]", "[(:)]", "[keep=>]"}
 
 func genRawSelector(t *rapid.T, doc map[string]any) string {
 	if rapid.Bool().Draw(t, "raw.mutate") {
